@@ -1,5 +1,6 @@
 import MindsVerif.Lemmas.ReWord
 import MindsVerif.Lemmas.ReWordAt
+import MindsVerif.Props.C02Lex
 import MindsVerif.Lemmas.SlyLexSound
 import MindsVerif.Gen.LexRe_sqlite
 import MindsVerif.Gen.LexRe_mysql
@@ -837,5 +838,242 @@ theorem C04_at_example :
     (firstMatch LexRe_mindsdb.cfg.word LexRe_mindsdb.cfg.rules ⟨[46, 49, 98, 97, 116], [99, 111, 108, 50, 44]⟩).map
         (fun x => (x.1.name, x.2)) = some ("ID", ⟨[50, 108, 111, 99, 46, 49, 98, 97, 116], [44]⟩) := by
   decide +kernel
+
+/-! ### dotted paths: `w1.w2.….wn` of plain non-keyword words lexes to `ID (DOT ID)*`
+
+The per-position facts are chained with the step relation of the loop (`Props/C02Lex.lean: Step / Steps`, [review]); `steps_lex`
+is the converse of `C02_lexer_run_spec`: a step chain from the start to the end of the text IS the run. -/
+
+open MindsVerif.Props.C02Lex in
+theorem steps_lexLoop (c : Cfg) : ∀ {p e : Pos} {segs : List Seg}, Steps c p segs e → e.suf = [] →
+    ∀ (n : Nat) (acc : List Seg), p.suf.length < n → lexLoop c n p acc = .ok (acc.reverse ++ segs) := by
+  intro p e segs h
+  induction h with
+  | nil p =>
+    intro he n acc hn
+    cases n with
+    | zero => omega
+    | succ n =>
+      obtain ⟨pre, suf⟩ := p
+      have hsuf : suf = [] := he
+      subst hsuf
+      simp [lexLoop]
+  | @cons p q e s segs hs _ ih =>
+    intro he n acc hn
+    cases n with
+    | zero => omega
+    | succ n =>
+      obtain ⟨ppre, psuf⟩ := p
+      cases hs with
+      | skip pre ch t hig =>
+        simp only [lexLoop, hig, if_true]
+        rw [ih he n _ (by simp at hn ⊢; omega)]
+        simp
+      | tok _ ch t r q hsuf hig hfm hlt =>
+        have hsuf' : psuf = ch :: t := hsuf
+        subst hsuf'
+        simp only [lexLoop, hig, Bool.false_eq_true, if_false, hfm]
+        have hlt' : q.suf.length < (ch :: t).length := hlt
+        rw [if_pos hlt', ih he n _ (by simp at hn hlt' ⊢; omega)]
+        simp
+
+open MindsVerif.Props.C02Lex in
+/-- a step chain from the start to the end of the text is the run of the lexer -/
+theorem steps_lex (c : Cfg) (s : List Nat) (segs : List Seg) (e : Pos) (h : Steps c ⟨[], s⟩ segs e) (he : e.suf = []) :
+    lex c s = .ok segs := by
+  have := steps_lexLoop c h he (s.length + 1) [] (by simp)
+  simpa [lex] using this
+
+/-- the `DOT` rule and the rules in front of it -/
+def classOKdot (c : Cfg) : Bool :=
+  match splitAt "DOT" c.rules with
+  | none => false
+  | some (pre, dr, _) =>
+    pre.all (fun r => nonNull r.re && disjointR (first r.re) [(46, 46)]) && !dr.ignored &&
+    (match dr.re with | .set D => D.mem 46 | _ => false) && !c.ignore.mem 46
+
+theorem dot_firstMatch (c : Cfg) (hc : classOKdot c = true) (pre rest : List Nat) :
+    ∃ dr, dr.name = "DOT" ∧ dr.ignored = false ∧
+      firstMatch c.word c.rules ⟨pre, 46 :: rest⟩ = some (dr, ⟨46 :: pre, rest⟩) := by
+  unfold classOKdot at hc
+  cases hs : splitAt "DOT" c.rules with
+  | none => rw [hs] at hc; cases hc
+  | some x =>
+    obtain ⟨prer, dr, post⟩ := x
+    rw [hs] at hc
+    simp only [Bool.and_eq_true, List.all_eq_true, Bool.not_eq_true'] at hc
+    obtain ⟨⟨⟨hpre, hign⟩, hre⟩, _⟩ := hc
+    obtain ⟨erules, ename⟩ := splitAt_spec hs
+    have h46 : inSet [(46, 46)] 46 := ⟨(46, 46), List.mem_cons_self, Nat.le_refl _, Nat.le_refl _⟩
+    have hnone : ∀ r ∈ prer, matchAt c.word r.re ⟨pre, 46 :: rest⟩ = none := fun r hr =>
+      matchAt_none_of_first (hpre r hr).1 (hpre r hr).2 (p := ⟨pre, 46 :: rest⟩) rfl h46
+    cases hd : dr.re with
+    | set D =>
+      rw [hd] at hre
+      simp only at hre
+      refine ⟨dr, ename, hign, ?_⟩
+      rw [erules, firstMatch_skip prer _ hnone]
+      simp [firstMatch, matchAt, hd, m, hre]
+    | _ => rw [hd] at hre; simp at hre
+
+/-- a plain non-keyword word that ends the text, any left context: the next token is `ID` and it takes the rest -/
+theorem C04_word_is_ID_end (c : Cfg) (hc : classOK c = true) (pre w : List Nat) (hw : PlainWord w) (hk : isKw c w = false) :
+    ∃ idr, idr.name = "ID" ∧ idr.ignored = false ∧
+      firstMatch c.word c.rules ⟨pre, w⟩ = some (idr, ⟨w.reverse ++ pre, []⟩) := by
+  unfold classOK at hc
+  unfold isKw at hk
+  cases hs : splitAtID c.rules with
+  | none => rw [hs] at hc; cases hc
+  | some x =>
+    obtain ⟨prer, idr, post⟩ := x
+    rw [hs] at hc hk
+    simp only [Bool.and_eq_true, List.all_eq_true, Bool.not_eq_true'] at hc
+    obtain ⟨⟨⟨⟨hpre, hign⟩, hid⟩, hword⟩, _⟩ := hc
+    obtain ⟨erules, ename⟩ := splitAtID_spec hs
+    obtain ⟨hall, c0, t0, ew, hlet⟩ := hw
+    have hW : ∀ x ∈ w, c.word.mem x = true := fun x hx => allMemR_sound hword (hall x hx)
+    cases hsh : idShape idr.re with
+    | none => rw [hsh] at hid; cases hid
+    | some ab =>
+      obtain ⟨A, B⟩ := ab
+      rw [hsh] at hid
+      simp only [Bool.and_eq_true] at hid
+      obtain ⟨hA, hB⟩ := hid
+      obtain ⟨alt2, ere⟩ := idShape_spec hsh
+      have hAw : ∀ x ∈ w, A.mem x = true := fun x hx => allMemR_sound hA (hall x hx)
+      have hBw : ∃ x ∈ w, B.mem x = true := ⟨c0, by rw [ew]; exact List.mem_cons_self, allMemR_sound hB hlet⟩
+      have hnone : ∀ r ∈ prer, matchAt c.word r.re ⟨pre, w⟩ = none := by
+        intro r hr
+        have hok := hpre r hr
+        unfold ruleOK at hok
+        simp only [Bool.or_eq_true] at hok
+        rcases hok with (ho | hkw) | hf
+        · exact matchAt_none_of_needsOut ho (fun x hx => mem_sound (hW x hx))
+        · cases hks : kwSets r.re with
+          | none => rw [hks] at hkw; cases hkw
+          | some sets =>
+            rw [hks] at hkw
+            cases hm : matchAt c.word r.re ⟨pre, w⟩ with
+            | none => rfl
+            | some q =>
+              have hne : sets ≠ [] := by
+                intro h0; subst h0; simp at hkw
+              have := kw_match hks hne (p := ⟨pre, w⟩) hW hm
+              have hk' := (List.any_eq_false.mp hk) r hr
+              rw [hks] at hk'
+              simp only at this hk'
+              rw [this] at hk'
+              exact absurd rfl hk'
+        · simp only [Bool.and_eq_true] at hf
+          exact matchAt_none_of_first hf.1 hf.2 (p := ⟨pre, w⟩) ew hlet
+      have hidm : matchAt c.word idr.re ⟨pre, w⟩ = some ⟨w.reverse ++ pre, []⟩ := by
+        rw [ere]
+        unfold matchAt
+        rw [m_alt]
+        have := idCore_match c.word A B w pre hAw hBw
+        unfold matchAt at this
+        rw [this]
+        simp [Option.orElse, Pos.fin]
+      refine ⟨idr, ename, hign, ?_⟩
+      rw [erules, firstMatch_skip prer _ hnone]
+      simp [firstMatch, hidm]
+
+/-- the text of a dotted path -/
+def pathText : List (List Nat) → List Nat
+  | [] => []
+  | [w] => w
+  | w :: r => w ++ 46 :: pathText r
+
+/-- its token pieces -/
+def pathSegs : List (List Nat) → List Seg
+  | [] => []
+  | [w] => [.tok "ID" false w]
+  | w :: r => .tok "ID" false w :: .tok "DOT" false [46] :: pathSegs r
+
+theorem between_adv (pre l rest : List Nat) : between ⟨pre, l ++ rest⟩ ⟨l.reverse ++ pre, rest⟩ = l := by
+  simp [between]
+
+open MindsVerif.Props.C02Lex in
+theorem path_steps (c : Cfg) (hc : classOK c = true) (hdot : classOKdot c = true) (hst : stopOK c 46 = true) :
+    ∀ (ws : List (List Nat)), ws ≠ [] → (∀ w ∈ ws, PlainWord w ∧ isKw c w = false) →
+    ∀ (pre : List Nat), ∃ e, e.suf = [] ∧ Steps c ⟨pre, pathText ws⟩ (pathSegs ws) e := by
+  have hignL : disjointR c.ignore letterSet = true := by
+    unfold classOK at hc
+    cases hs : splitAtID c.rules with
+    | none => rw [hs] at hc; cases hc
+    | some x => rw [hs] at hc; simp only [Bool.and_eq_true] at hc; exact hc.2
+  have hign46 : c.ignore.mem 46 = false := by
+    unfold classOKdot at hdot
+    cases hs : splitAt "DOT" c.rules with
+    | none => rw [hs] at hdot; cases hdot
+    | some x => rw [hs] at hdot; simp only [Bool.and_eq_true, Bool.not_eq_true'] at hdot; exact hdot.2
+  have hhead : ∀ {w : List Nat}, PlainWord w → ∃ c0 t0, w = c0 :: t0 ∧ c.ignore.mem c0 = false := by
+    intro w hw
+    obtain ⟨_, c0, t0, ew, hlet⟩ := hw
+    refine ⟨c0, t0, ew, ?_⟩
+    cases h : c.ignore.mem c0 with
+    | false => rfl
+    | true => exact (disjointR_sound hignL (mem_sound h) hlet).elim
+  intro ws
+  induction ws with
+  | nil => intro h; exact absurd rfl h
+  | cons w r ih =>
+    intro _ hall pre
+    obtain ⟨hw, hk⟩ := hall w List.mem_cons_self
+    obtain ⟨c0, t0, ew, hig0⟩ := hhead hw
+    cases r with
+    | nil =>
+      obtain ⟨idr, hn, hi, hfm⟩ := C04_word_is_ID_end c hc pre w hw hk
+      refine ⟨⟨w.reverse ++ pre, []⟩, rfl, ?_⟩
+      have hs : Step c ⟨pre, w⟩ (.tok idr.name idr.ignored (between ⟨pre, w⟩ ⟨w.reverse ++ pre, []⟩)) ⟨w.reverse ++ pre, []⟩ :=
+        Step.tok ⟨pre, w⟩ c0 t0 idr _ ew hig0 hfm (by rw [ew]; simp)
+      have hb : between ⟨pre, w⟩ ⟨w.reverse ++ pre, []⟩ = w := by
+        have := between_adv pre w []; simpa using this
+      rw [hn, hi, hb] at hs
+      exact Steps.cons hs (Steps.nil _)
+    | cons w2 r2 =>
+      obtain ⟨idr, hn, hi, hfm⟩ := C04_word_is_ID_at c hc 46 hst pre w (pathText (w2 :: r2)) hw hk
+      obtain ⟨dr, hdn, hdi, hdfm⟩ := dot_firstMatch c hdot (w.reverse ++ pre) (pathText (w2 :: r2))
+      obtain ⟨e, he, hrest⟩ := ih (by simp) (fun x hx => hall x (List.mem_cons_of_mem _ hx)) (46 :: (w.reverse ++ pre))
+      refine ⟨e, he, ?_⟩
+      have hs1 : Step c ⟨pre, w ++ 46 :: pathText (w2 :: r2)⟩
+          (.tok idr.name idr.ignored (between ⟨pre, w ++ 46 :: pathText (w2 :: r2)⟩ ⟨w.reverse ++ pre, 46 :: pathText (w2 :: r2)⟩))
+          ⟨w.reverse ++ pre, 46 :: pathText (w2 :: r2)⟩ :=
+        Step.tok _ c0 (t0 ++ 46 :: pathText (w2 :: r2)) idr _ (by rw [ew]; rfl) hig0 hfm (by rw [ew]; simp; omega)
+      rw [hn, hi, between_adv pre w (46 :: pathText (w2 :: r2))] at hs1
+      have hs2 : Step c ⟨w.reverse ++ pre, 46 :: pathText (w2 :: r2)⟩
+          (.tok dr.name dr.ignored (between ⟨w.reverse ++ pre, 46 :: pathText (w2 :: r2)⟩ ⟨46 :: (w.reverse ++ pre), pathText (w2 :: r2)⟩))
+          ⟨46 :: (w.reverse ++ pre), pathText (w2 :: r2)⟩ :=
+        Step.tok _ 46 (pathText (w2 :: r2)) dr _ rfl hign46 hdfm (by simp)
+      have hb2 : between ⟨w.reverse ++ pre, 46 :: pathText (w2 :: r2)⟩ ⟨46 :: (w.reverse ++ pre), pathText (w2 :: r2)⟩ = [46] := by
+        have := between_adv (w.reverse ++ pre) [46] (pathText (w2 :: r2)); simpa using this
+      rw [hdn, hdi, hb2] at hs2
+      exact Steps.cons hs1 (Steps.cons hs2 hrest)
+
+/-- **every dotted path of plain non-keyword words lexes to `ID (DOT ID)*`** — any number of parts, any lengths -/
+theorem C04_path_lexes (c : Cfg) (hc : classOK c = true) (hdot : classOKdot c = true) (hst : stopOK c 46 = true)
+    (ws : List (List Nat)) (hne : ws ≠ []) (hall : ∀ w ∈ ws, PlainWord w ∧ isKw c w = false) :
+    lex c (pathText ws) = .ok (pathSegs ws) := by
+  obtain ⟨e, he, hs⟩ := path_steps c hc hdot hst ws hne hall []
+  exact steps_lex c _ _ e hs he
+
+theorem classOKdot_live : classOKdot LexRe_sqlite.cfg = true ∧ classOKdot LexRe_mysql.cfg = true ∧
+    classOKdot LexRe_mindsdb.cfg = true := by decide +kernel
+
+theorem C04_path_lexes_mindsdb (ws : List (List Nat)) (hne : ws ≠ [])
+    (hall : ∀ w ∈ ws, PlainWord w ∧ isKw LexRe_mindsdb.cfg w = false) :
+    lex LexRe_mindsdb.cfg (pathText ws) = .ok (pathSegs ws) :=
+  C04_path_lexes _ classOK_mindsdb classOKdot_live.2.2
+    ((List.all_eq_true.mp stopOK_live.2.2) 46 (by decide)) ws hne hall
+theorem C04_path_lexes_mysql (ws : List (List Nat)) (hne : ws ≠ [])
+    (hall : ∀ w ∈ ws, PlainWord w ∧ isKw LexRe_mysql.cfg w = false) :
+    lex LexRe_mysql.cfg (pathText ws) = .ok (pathSegs ws) :=
+  C04_path_lexes _ classOK_mysql classOKdot_live.2.1
+    ((List.all_eq_true.mp stopOK_live.2.1) 46 (by decide)) ws hne hall
+theorem C04_path_lexes_sqlite (ws : List (List Nat)) (hne : ws ≠ [])
+    (hall : ∀ w ∈ ws, PlainWord w ∧ isKw LexRe_sqlite.cfg w = false) :
+    lex LexRe_sqlite.cfg (pathText ws) = .ok (pathSegs ws) :=
+  C04_path_lexes _ classOK_sqlite classOKdot_live.1
+    ((List.all_eq_true.mp stopOK_live.1) 46 (by decide)) ws hne hall
 
 end MindsVerif.Props.C04Lex
